@@ -178,6 +178,22 @@ Section WithDigest.
     let closest_peers := if client then drop_self self_peer found_peers else found_peers in
     sort_peers_by_address closest_peers key expanded_close_group.
 
+  (* Node::respond_x_closest_record_proof (GetChunkExistenceProof with difficulty > 1, chunk_only): of the
+     locally held records (key, record-type tag; tag 0 = Chunk) FIRST keep the chunks, THEN order them by
+     distance to the target, THEN take X = min(difficulty, CLOSE_GROUP_SIZE).  Every address is in raw
+     record-key form, as the record store reports it. *)
+  Definition is_chunk (r : bytes * N) : bool := snd r =? 0.
+  Definition workload_factor (difficulty : N) : N := N.min difficulty CLOSE_GROUP_SIZE.
+  Definition x_closest_chunks (target : addr) (difficulty : N) (records : list (bytes * N)) : list bytes :=
+    firstn (N.to_nat (workload_factor difficulty))
+           (sort_on (fun k => distance target (from_record_key k)) (map fst (filter is_chunk records))).
+
+  (* the swapped order (NOT what the code does): order everything, take X, then drop the non-chunks *)
+  Definition take_then_filter_chunks (target : addr) (difficulty : N) (records : list (bytes * N)) : list bytes :=
+    map fst (filter is_chunk
+                    (firstn (N.to_nat (workload_factor difficulty))
+                            (sort_on (fun r => distance target (from_record_key (fst r))) records))).
+
   Definition get_peers_in_range (peers : list bytes) (a : addr) (range : N) : list bytes :=
     filter (fun p => distance_u256 a (from_peer p) <=? range) peers.
 
@@ -513,6 +529,9 @@ Section Agree.
   Definition agree_close_peers (self_peer : bytes) (client : bool) (found_peers : list bytes) (a : addr)
              (code found required : N) (l : list bytes) : bool :=
     sort_res_eqb (get_all_close_peers H self_peer client found_peers a) code found required l.
+
+  Definition agree_chunk_proofs (target : addr) (difficulty : N) (records : list (bytes * N)) (out : list bytes) : bool :=
+    bytes_list_eqb (x_closest_chunks H target difficulty records) out.
 
   Definition agree_in_range (peers : list bytes) (a : addr) (range : N) (l : list bytes) : bool :=
     bytes_list_eqb (get_peers_in_range H peers a range) l.
